@@ -122,9 +122,10 @@ def norm_rank_tt(n, rank):
     return [1] + [rank] * (n - 1) + [1] if isinstance(rank, int) else list(rank)
 
 
-def pred_tt(X, rank, factors, what="tensor_train"):
+def pred_tt(X, rank, factors, what="tensor_train", rel=None, ub_ok=True):
     """X: array; rank: validated request (len n+1); factors: list of 3-D arrays. Returns message or None."""
     n = X.ndim
+    REL = globals()["REL"] if rel is None else rel
     req = norm_rank_tt(n, rank)
     shp = [tuple(f.shape) for f in factors]
     if len(factors) != n or any(len(s) != 3 for s in shp):
@@ -146,7 +147,7 @@ def pred_tt(X, rank, factors, what="tensor_train"):
     lb = max(tails) if tails else 0.0
     if not np.isfinite(err):
         return f"{what}: reconstruction is not finite"
-    if err > ub * (1 + SLACK) + REL * nx:
+    if err > ub * (1 + SLACK) + REL * nx and (ub_ok or ub <= REL * nx):
         if ub <= REL * nx:
             return f"{what}: not exact at sufficient rank: error {err:.3e} (relative {err / max(nx, 1e-300):.3e}), requested {req}"
         return f"{what}: error {err:.6e} exceeds sqrt(sum of discarded sigma^2) = {ub:.6e}, requested {req}"
@@ -254,8 +255,9 @@ def interleave(X):
     return np.transpose(X, idx).reshape([a * b for a, b in zip(X.shape[:d], X.shape[d:])])
 
 
-def pred_ttm(X, rank, factors):
+def pred_ttm(X, rank, factors, rel=None, ub_ok=True):
     d = X.ndim // 2
+    REL = globals()["REL"] if rel is None else rel
     shp = [tuple(f.shape) for f in factors]
     if len(factors) != d or any(len(s) != 4 for s in shp):
         return f"tensor_train_matrix: factor shapes {shp}"
@@ -270,7 +272,7 @@ def pred_ttm(X, rank, factors):
         return None if err <= REL * fro(X) else f"tensor_train_matrix: single factor is not the matrix (error {err:.3e})"
     merged = [np.asarray(f).reshape(f.shape[0], f.shape[1] * f.shape[2], f.shape[3]) for f in factors]
     # the error of the TT-matrix equals the error of the TT of the interleaved tensor (a permutation of entries)
-    msg = pred_tt(interleave(np.asarray(X)), rank, merged, "tensor_train_matrix")
+    msg = pred_tt(interleave(np.asarray(X)), rank, merged, "tensor_train_matrix", rel=rel, ub_ok=ub_ok)
     if msg:
         return msg
     err_direct = fro(np.asarray(X, dtype=float) - full)
@@ -280,8 +282,9 @@ def pred_ttm(X, rank, factors):
     return None
 
 
-def pred_tucker(X, rank, core, factors):
+def pred_tucker(X, rank, core, factors, rel=None, ub_ok=True):
     n = X.ndim
+    REL = globals()["REL"] if rel is None else rel
     req = [rank] * n if isinstance(rank, int) else list(rank)
     if len(factors) != n or core.ndim != n:
         return f"tucker: {len(factors)} factors, core of order {core.ndim}"
@@ -297,7 +300,7 @@ def pred_tucker(X, rank, core, factors):
     ub = math.sqrt(sum(t * t for t in tails)); lb = max(tails)
     if not np.isfinite(err):
         return "tucker: reconstruction is not finite"
-    if err > ub * (1 + SLACK) + REL * nx:
+    if err > ub * (1 + SLACK) + REL * nx and (ub_ok or ub <= REL * nx):
         if ub <= REL * nx:
             return f"tucker: not exact at sufficient rank: error {err:.3e} (relative {err / max(nx, 1e-300):.3e}), requested {req}"
         return f"tucker: error {err:.6e} exceeds sqrt(sum over modes of discarded sigma^2) = {ub:.6e}, requested {req}"
@@ -335,8 +338,9 @@ def pred_tucker_identity(X, core, factors):
     return None
 
 
-def pred_tr(X, rank, mode, factors, sufficient):
+def pred_tr(X, rank, mode, factors, sufficient, rel=None):
     n = X.ndim
+    REL = globals()["REL"] if rel is None else rel
     req = [rank] * (n + 1) if isinstance(rank, int) else list(rank)
     shp = [tuple(f.shape) for f in factors]
     if len(factors) != n or any(len(s) != 3 for s in shp):
@@ -403,6 +407,8 @@ def run_impl(kind, X, rank, extra, via_class=False):
         tensor_ring = lambda X_, r_, **kw: TensorRing(r_, **kw).fit_transform(X_)
         tucker = lambda X_, r_, **kw: Tucker(rank=r_, **kw).fit_transform(X_)
     C.reset_backends()
+    if extra.get("svd") == "randomized_svd":
+        np.random.seed(20260929)     # randomized_svd draws from NumPy's global state (random_state is not passed down): reproducible replays
     rank_arg = rank if isinstance(rank, (int, float, str)) else list(rank)   # fresh list: the code writes into it
     with Tape() as tp:
         if kind == "tt":
@@ -428,6 +434,9 @@ def predicate(kind, X, rank, extra, st, v, info, calls=None):
         if info.get("valid", True):
             return f"{kind}: raised on a valid request: {v}"
         return None
+    method = extra.get("svd", "truncated_svd")
+    if method != "truncated_svd":
+        return predicate_method(kind, X, rank, extra, v, info, method)
     try:
         if kind == "tt":
             msg = pred_tt(X, rank, v)
@@ -457,6 +466,130 @@ def predicate(kind, X, rank, extra, st, v, info, calls=None):
     except Exception as e:  # malformed output (shapes that cannot be contracted ...)
         return f"{kind}: output cannot be reconstructed: {type(e).__name__}: {e}"
     return None
+
+
+# ----------------------------------------------------------------------------- the other svd= methods
+# tensor_train / tensor_train_matrix / tensor_ring / tucker take svd in {"truncated_svd", "symeig_svd", "randomized_svd"}.  The property
+# (exact at sufficient rank, ranks respected, error between the largest discarded tail and the root-sum-square of the tails) does
+# not depend on the method; what depends on it is the accuracy:
+#   symeig_svd     singular values / vectors from eigh of a Gram matrix: accurate to about sqrt(eps) ||X|| (1.5e-8 relative), and for a
+#                  rank-deficient unfolding the null-space columns of the derived factor are not orthonormal (recorded finding
+#                  symeig_svd_rank_deficient of C05: expected, not judged here).  "Rounding error" is therefore 1e-6 relative.
+#   randomized_svd exact (almost surely) when n_eigenvecs + n_oversamples reaches the smaller dimension or the rank of the matrix,
+#                  which is what "sufficient rank" gives; when it truncates a larger matrix it is only near-optimal in expectation,
+#                  so the root-sum-square upper bound is judged only on runs whose every range finder is exact (rand_exact).
+METHODS = ["truncated_svd", "symeig_svd", "randomized_svd"]
+REL_BY_METHOD = {"truncated_svd": REL, "symeig_svd": 1e-6, "randomized_svd": 1e-9}
+N_OVERSAMPLES = 5
+
+
+def rand_exact(kind, X, rank, extra, v):
+    """every SVD call of the run has n_eigenvecs + n_oversamples >= the smaller dimension of its matrix (computed from the
+    shapes of the returned factors): the randomized range finder then spans the whole column / row space"""
+    shape = [int(x) for x in X.shape]
+    mats = []
+    if kind == "ttm":
+        d = len(shape) // 2
+        if d == 1:
+            return True
+        shape = [a * b for a, b in zip(shape[:d], shape[d:])]
+        v = [np.asarray(f).reshape(f.shape[0], f.shape[1] * f.shape[2], f.shape[3]) for f in v]
+        kind = "tt"
+    n = len(shape)
+    if kind == "tt":
+        for k in range(n - 1):
+            mats.append((v[k].shape[0] * shape[k], int(np.prod(shape[k + 1:])), v[k].shape[2]))
+    elif kind == "tr":
+        m = int(extra.get("mode", 0))
+        shape = shape[m:] + shape[:m]; fs = list(v[m:]) + list(v[:m])
+        r0 = fs[0].shape[0]
+        mats.append((shape[0], int(np.prod(shape[1:])), r0 * fs[0].shape[2]))
+        for k in range(1, n - 1):
+            mats.append((fs[k].shape[0] * shape[k], int(np.prod(shape[k + 1:])) * r0, fs[k].shape[2]))
+    else:
+        req = [rank] * n if isinstance(rank, int) else list(rank)
+        for k in range(n):
+            mats.append((shape[k], int(np.prod(shape)) // max(shape[k], 1), int(req[k])))
+    return all(ne + N_OVERSAMPLES >= min(r, c) for (r, c, ne) in mats)
+
+
+def predicate_method(kind, X, rank, extra, v, info, method):
+    """the property's predicates for a run with svd=symeig_svd / randomized_svd (structure, finiteness, ranks respected, exact at
+    sufficient rank, lower bound; upper bound when the method is an SVD up to its accuracy); no tape-based identities (these
+    methods do not go through the backend's svd in the way the identities are stated)"""
+    rel = REL_BY_METHOD[method]
+    try:
+        arrs = ([v[0]] + list(v[1])) if kind == "tucker" else list(v)
+        if not all(np.all(np.isfinite(np.asarray(a, dtype=float))) for a in arrs):
+            return f"{kind} (svd={method}): non-finite factor"
+        ub_ok = method != "randomized_svd" or rand_exact(kind, X, rank, extra, v)
+        if kind == "tt":
+            msg = pred_tt(X, rank, v, rel=rel, ub_ok=ub_ok)
+        elif kind == "ttm":
+            msg = pred_ttm(X, rank, v, rel=rel, ub_ok=ub_ok)
+        elif kind == "tucker":
+            msg = pred_tucker(X, rank, v[0], v[1], rel=rel, ub_ok=ub_ok)
+        else:
+            msg = pred_tr(X, rank, extra.get("mode", 0), v, info.get("sufficient", False), rel=rel)
+        return None if msg is None else msg.replace(":", f" (svd={method}):", 1)
+    except Exception as e:
+        return f"{kind} (svd={method}): output cannot be reconstructed: {type(e).__name__}: {e}"
+
+
+def true_ranks(X):
+    """numerical ranks of the sequential unfoldings (TT) and of the mode unfoldings (Tucker) of X"""
+    Xf = np.asarray(X, dtype=float)
+    n = Xf.ndim
+    seq = [num_rank(sv(Xf.reshape(int(np.prod(Xf.shape[:k])), -1))) for k in range(1, n)]
+    modes = [num_rank(sv(np.moveaxis(Xf, k, 0).reshape(Xf.shape[k], -1))) for k in range(n)]
+    return seq, modes
+
+
+def gen_method_cases(tier, rng, nrng):
+    """all svd= methods x (low-rank / rank-deficient / generic inputs) x (over-requested, exactly sufficient, truncating ranks)
+    x the four decompositions.  Low-rank input with over-requested ranks makes every method keep singular triplets of the
+    null space of a rank-deficient working unfolding -- the regime in which a Gram-matrix based SVD divides by (clipped) zeros."""
+    N = 132 if tier == "quick" else 1500
+    low = ["lowtt", "lowml", "intlow", "negdiag", "negperm", "deficient", "lowtt", "lowml", "sparseint", "generic", "integer"]
+    for i in range(N):
+        method = METHODS[1 + (i % 2)] if i % 6 else "truncated_svd"
+        kind = ["tt", "tr", "tucker", "ttm"][(i // 2) % 4]
+        order = rng.choice([2, 3, 3, 4]) if kind != "ttm" else rng.choice([2, 4, 4])
+        hi = {2: 7, 3: 6, 4: 4}[order]
+        shape = tuple(rng.choice([2, 2, 3, 3, hi, rng.randint(1, hi)]) for _ in range(order))
+        cls = low[(i // 8) % len(low)]
+        X = make_tensor(cls, shape, nrng, rng)
+        if X.dtype.kind == "f":
+            X = X * rng.choice([1.0, 1.0, 4.0, 0.25])
+        style = ["over", "over", "true", "trunc"][rng.randrange(4)]
+        extra = {"svd": method}
+        info = {"cls": cls, "style": style, "valid": True}
+        if kind in ("tt", "ttm"):
+            Xi = X if kind == "tt" else (interleave(np.asarray(X)) if order > 2 else X)
+            nn = order if kind == "tt" else order // 2
+            seq, _ = true_ranks(Xi) if nn > 1 else ([], [])
+            if style == "over":
+                rank = rng.choice([[1] + [200] * (nn - 1) + [1], [1] + [r + rng.randint(1, 3) for r in seq] + [1], 40])
+            elif style == "true":
+                rank = [1] + [max(1, r) for r in seq] + [1]
+            else:
+                rank = [1] + [max(1, r - rng.randint(0, 1)) for r in seq] + [1]
+            yield kind, X, rank, extra, info
+        elif kind == "tucker":
+            _, modes = true_ranks(X)
+            if style == "over":
+                rank = [s + rng.randint(0, 2) for s in shape] if rng.random() < 0.5 else [min(s, r + rng.randint(1, 2)) for s, r in zip(shape, modes)]
+            elif style == "true":
+                rank = [max(1, r) for r in modes]
+            else:
+                rank = [max(1, r - rng.randint(0, 1)) for r in modes]
+            extra = dict(extra, n_iter_max=rng.choice([1, 2, 5]), tol=0, init="svd")
+            yield kind, X, rank, extra, info
+        else:
+            mode = rng.randrange(order)
+            sufficient = style != "trunc"
+            rank = tr_rank_for(rng, list(shape), mode, sufficient)
+            yield kind, X, rank, dict(extra, mode=mode), dict(info, sufficient=sufficient)
 
 
 # ----------------------------------------------------------------------------- generators
@@ -1074,6 +1207,18 @@ def run(chk):
                 chk.finding(EP[kind], describe(kind, X, rank, extra, info), msg, "C09_bounds")
             if kind == "tt" and st == "ok":
                 check_validate_strict(chk, X, rank, v)
+    # ---- every svd= method on low-rank / rank-deficient inputs with over-requested, sufficient and truncating ranks ----
+    for (kind, X, rank, extra, info) in gen_method_cases(tier, rng, nrng):
+        via_class = rng.random() < 0.1
+        st, v, calls = run_impl(kind, X, rank, extra, via_class=via_class)
+        if timed_out(st, v):
+            chk.hist("skipped_timeout", kind)
+            continue
+        msg = predicate(kind, X, rank, extra, st, v, info, calls)
+        chk.count(key=("method", kind, X.shape, str(rank), tuple(sorted((k, str(v_)) for k, v_ in extra.items())), info["cls"]), nontrivial=X.size > 1)
+        chk.hist("method_stream", f"{kind}/{extra['svd']}"); chk.hist("method_rank_style", info["style"]); chk.hist("method_class", info["cls"])
+        if msg:
+            chk.finding(EP[kind], describe(kind, X, rank, extra, info), msg, "C09_svd_methods")
     if resid:
         chk.cov["oracle_residuals"] = {"svd_calls_taped": len(resid), "max_relative_residual_U_S_V_minus_M": max(resid),
                                        "max_orthonormality_residual_UtU_VVt_minus_I": max(orth) if orth else 0.0}
@@ -1083,6 +1228,9 @@ def run(chk):
                        "tensor_train / tensor_train_matrix / tensor_ring (every start mode) / tucker (0-2 HOOI sweeps, tol=0), int and list ranks from 1 to beyond "
                        "the mode sizes plus invalid requests; model over Q fed with the taped LAPACK answers; U-derived factors exact, products |d| <= 1e-9 + 1e-9(|a|+|b|). "
                        "predicates (tests): order 2-5, mode sizes 1-7, same classes, default options; "
+                       "svd-method stream (tests): svd in {truncated_svd, symeig_svd, randomized_svd} x the four decompositions x low-rank / rank-deficient / generic inputs "
+                       "x over-requested / exactly sufficient / truncating ranks (order 2-4, mode sizes 1-7; no exception, finite, ranks respected, exact at sufficient rank, bounds; "
+                       "symeig_svd judged at 1e-6 relative, randomized_svd's upper bound only when every range finder is exact); "
                        "distinct key = (stream, function, shape, rank request, options, value class); non-trivial = more than one entry")
     chk.assumptions = ["exact-arithmetic semantics: floating-point rounding is not modelled (products compared with tolerance 1e-9)",
                        "numpy.linalg.svd is an oracle: its recorded answers are handed to the model; the theorems assume the SVD contract for the answers of a run",
